@@ -71,6 +71,8 @@ type inst struct {
 	nonblock    bool
 	deadlines   int
 
+	gate     *gate // part 5: every conn.Write parks here until the controller releases it
+
 	done     bool
 	ec       *p2p.EncryptedConn
 	err      lib.ErrorI
@@ -123,6 +125,17 @@ func (c conn) Read(p []byte) (int, error) {
 func (c conn) Write(p []byte) (int, error) {
 	i := c.i
 	i.w.mu.Lock()
+	if g := i.gate; g != nil {
+		id := g.arrived
+		g.arrived++
+		ch := make(chan struct{})
+		g.released[id] = ch
+		g.pending = append(g.pending, id)
+		i.w.cond.Broadcast()
+		i.w.mu.Unlock()
+		<-ch
+		i.w.mu.Lock()
+	}
 	defer i.w.mu.Unlock()
 	if i.localClosed {
 		return 0, io.ErrClosedPipe
